@@ -1294,6 +1294,19 @@ func fdsDirect(seed uint64, tier string, args []string, w *bufio.Writer) {
 	// NewMirroredBuffer with the re-mapping failing (mapping-count exhaustion, in a child process)
 	fdsMirroredRemapTrial(d)
 
+	// 6c. timers: a schedule in flight keeps the timer alive (last: a timer collected while armed leaves a dangling
+	// registration behind, after which nothing more can be trusted in this process)
+	for _, variant := range []string{"once", "repeating", "rescheduled-in-cancelled-repeating-callback", "rescheduled-in-one-shot-callback"} {
+		variant := variant
+		ok := true
+		d.trial("gc.timer-"+variant, "drop all references to a timer with a schedule in flight ("+variant+"), collect, let it fire", func() {
+			ok = fdsGcTimerTrial(d, ioc, variant)
+		})
+		if !ok {
+			break
+		}
+	}
+
 	st := map[string]any{"fds_trials": d.counts, "fds_failures": d.fails}
 	js, _ := json.Marshal(st)
 	fmt.Fprintf(w, "DIRECT-STAT %s\n", js)
@@ -1531,6 +1544,71 @@ func fdsStaleCloseTrial(d *fdsDirectState, ioc *sonic.IO, xkind string) {
 	if !done {
 		d.fail("gc.completion-lost", "the read of the packet connection that inherited descriptor %d from a closed %s never completed after the repeated Close", fdX, xkind)
 	}
+}
+
+// fdsGcTimerTrial: false = the timer was collected while armed (stop polling this IO context).
+func fdsGcTimerTrial(d *fdsDirectState, ioc *sonic.IO, variant string) bool {
+	fired, ticked, finalized := 0, false, false
+	func() {
+		t, err := sonic.NewTimer(ioc)
+		if err != nil {
+			return
+		}
+		// (a finalizer on the timer itself would never run: timer -> stored callback -> timer is a cycle; the sentinel is
+		// reachable only through the callbacks the timer holds)
+		sentinel := new([64]byte)
+		runtime.SetFinalizer(sentinel, func(*[64]byte) { finalized = true })
+		last := func() { runtime.KeepAlive(sentinel); fired++; _ = t.Close() }
+		switch variant {
+		case "once":
+			ticked = true
+			_ = t.ScheduleOnce(30*time.Millisecond, last)
+		case "repeating":
+			ticked = true
+			n := 0
+			_ = t.ScheduleRepeating(10*time.Millisecond, func() {
+				if n++; n == 3 {
+					last()
+				}
+			})
+		case "rescheduled-in-cancelled-repeating-callback":
+			_ = t.ScheduleRepeating(5*time.Millisecond, func() {
+				ticked = true
+				_ = t.Cancel()
+				_ = t.ScheduleOnce(40*time.Millisecond, last)
+			})
+		case "rescheduled-in-one-shot-callback":
+			_ = t.ScheduleOnce(5*time.Millisecond, func() {
+				ticked = true
+				_ = t.ScheduleOnce(40*time.Millisecond, last)
+			})
+		}
+	}()
+	for i := 0; i < 50 && !ticked; i++ {
+		_ = ioc.RunOneFor(10 * time.Millisecond)
+	}
+	for i := 0; i < 3; i++ {
+		runtime.GC()
+		time.Sleep(time.Millisecond)
+	}
+	if finalized && fired == 0 {
+		d.fail("gc.collected-in-flight", "timer (%s): the timer was finalised while its schedule was in flight", variant)
+		return false
+	}
+	for i := 0; i < 60 && fired == 0; i++ {
+		_ = ioc.RunOneFor(10 * time.Millisecond)
+		if i%10 == 5 {
+			runtime.GC()
+		}
+		if finalized && fired == 0 {
+			d.fail("gc.collected-in-flight", "timer (%s): the timer was finalised while its schedule was in flight", variant)
+			return false
+		}
+	}
+	if fired == 0 {
+		d.fail("gc.completion-lost", "timer (%s): the schedule never fired after the references were dropped and the collector ran", variant)
+	}
+	return true
 }
 
 func fdsGcTrial(d *fdsDirectState, ioc *sonic.IO, kind string, r *rng) {
